@@ -4,3 +4,4 @@ import Model.Codec
 import Model.Spec.C01
 import Model.Spec.C05
 import Model.Async
+import Model.Spec.C07
